@@ -75,7 +75,11 @@ def _run_suite(prop, suite, stats):
         c.impl, c.model = i, m
         stats["evaluations"] += 1
         if i is None:
-            div.append((c, "the harness died on this case")); continue
+            # twice (in a batch, then alone in a fresh process) the implementation did not come back from this case within the harness's
+            # limits: an operation that blocks for ever on this very input - a concrete failing input
+            div.append((c, "the harness died on this case"))
+            hits.append((c, None, "the implementation did not come back from this case (twice: in a batch, then alone in a fresh process): some operation never returns"))
+            continue
         if len(i) == 3 and i[0] == 3 and i[2] >= 128:
             # the implementation (inside the harness process) was killed by a signal on this very input: a concrete failing input
             div.append((c, "the process crashed on this case"))
